@@ -28,7 +28,8 @@ PROPERTY = "C13"
 RULE = (
     "Rule-based state machine on a generated reaction with 1-3 resonances (1-3 topologies, optionally identical"
     " final-state particles, both formalisms): assignment rules (name / Particle / (transition,node) / TwoBodyDecay /"
-    " deprecated set_dynamics) with the 8 public builder configurations and a probe builder, then formulate. Non-trivial:"
+    " deprecated set_dynamics) with the 8 public builder configurations and a probe builder, configuration rules"
+    " (use_helicity_couplings, scalar_initial_state_mass, stable_final_state_ids on/off), then formulate. Non-trivial:"
     " >= 2 assignments whose selections overlap, or the same resonance occurs in >= 2 topologies. Distinct = hash of"
     " (reaction, operation list)."
 )
@@ -119,6 +120,7 @@ class History:
         self.reaction = built.reaction
         self.builder = ampform.get_builder(self.reaction)
         self.model: dict = {}  # decay key -> builder index
+        self.config: dict = {}  # builder.config attribute -> value (applied to the dynamics-free twin as well)
         self.touched: list[set] = []
         self.keys = {}
         for t in self.reaction.transitions:
@@ -136,6 +138,11 @@ class History:
         kind = op[0]
         if kind == "formulate":
             self.check()
+            return
+        if kind == "config":
+            self.configure(self.builder, op[1], op[2])
+            self.config[op[1]] = op[2]
+            self.labels.add(f"config:{op[1]}={op[2]}")
             return
         from ampform.helicity.decay import TwoBodyDecay  # noqa: PLC0415
 
@@ -171,6 +178,11 @@ class History:
         for k in selected:
             self.model[k] = bidx
         self.touched.append(selected)
+
+    def configure(self, builder, name, value) -> None:
+        if name == "stable_final_state_ids":
+            value = sorted(self.reaction.final_state) if value else None
+        setattr(builder.config, name, value)
 
     # ---- oracle ------------------------------------------------------------------------------
     def expected_factor(self, t, node):
@@ -233,7 +245,10 @@ class History:
         if contract:
             self.result = violation("form_factor_without_L_did_not_raise", nontrivial, sorted(labels))
             return
-        plain = ampform.get_builder(self.reaction).formulate()
+        plain_builder = ampform.get_builder(self.reaction)
+        for name, value in self.config.items():
+            self.configure(plain_builder, name, value)
+        plain = plain_builder.formulate()
         naming = self.builder.naming
         self.checked += 1
         if not self.identical:
@@ -365,6 +380,11 @@ def machine(tier, report, gate):
               bidx=st.sampled_from([PROBE, PROBE, PROBE, *range(len(BUILDER_NAMES))]))
         def assign(self, sel, tgt, bidx):
             self.do(["assign", sel, tgt, bidx])
+        @rule(name=st.sampled_from(["use_helicity_couplings", "use_helicity_couplings", "scalar_initial_state_mass",
+                                    "stable_final_state_ids"]), value=st.booleans())
+        def configure(self, name, value):
+            self.do(["config", name, value])
+
         @rule()
         def formulate(self):
             self.do(["formulate"])
@@ -401,4 +421,5 @@ def fixed_cases(tier):
     return [
         {"reaction": r, "ops": [["assign", "name", 0, PROBE], ["formulate"]]},
         {"reaction": r, "ops": [["assign", "name", 0, 2], ["assign", "name", 1, PROBE], ["formulate"]]},
+        {"reaction": r, "ops": [["config", "use_helicity_couplings", True], ["assign", "name", 0, PROBE], ["formulate"]]},
     ]
